@@ -29,10 +29,18 @@ pub enum Step {
     /// die before the k-th mutating file-system call (k is taken modulo the number of calls a
     /// clean build of the current version performs, +1)
     BuildKilled(u16),
+    /// like BuildKilled, but when the k-th mutating call is a write it is torn: half of its bytes
+    /// reach the file before the process dies
+    BuildKilledTorn(u16),
     /// rustc fails on the i-th component (component mode only)
     BuildRustcFails(u16),
     /// rustc dies half-way through writing the i-th component library, taking the build with it
     BuildRustcDies(u16),
+    /// rustc is terminated by a signal (KILL, SEGV, TERM, ABRT by index) half-way through writing the
+    /// i-th component library; the build process itself survives and sees a child without exit code
+    BuildRustcKilledAlone(u16, u8),
+    /// rustc exits with status 1 after it has written part of the i-th component library
+    BuildRustcFailsLate(u16),
 }
 
 #[derive(Clone, Debug, Serialize, Deserialize)]
@@ -135,6 +143,7 @@ pub struct Stats {
     pub kills_effective: usize,
     pub rustc_failures: usize,
     pub rustc_deaths: usize,
+    pub rustc_signalled: usize,
     pub noop_builds: usize,
     pub stale_checks: usize,
     pub versions_accepted: usize,
@@ -208,25 +217,41 @@ pub fn run_case(case: &Case, st: &mut Stats) -> Result<Option<()>, String> {
                         envs.push(("LD_PRELOAD".into(), shim().display().to_string()));
                         envs.push(("KILLPOINT_LOG".into(), log.display().to_string()));
                     }
-                    Step::BuildKilled(k) => {
+                    Step::BuildKilled(k) | Step::BuildKilledTorn(k) => {
                         let n = cl.1.max(1);
                         let k = 1 + (*k as usize % n);
                         envs.push(("LD_PRELOAD".into(), shim().display().to_string()));
                         envs.push(("KILLPOINT_K".into(), k.to_string()));
+                        if matches!(step, Step::BuildKilledTorn(_)) {
+                            envs.push(("KILLPOINT_TORN".into(), "1".into()));
+                        }
                         st.kills += 1;
                         expect_ok = false;
                     }
-                    Step::BuildRustcFails(i) | Step::BuildRustcDies(i) => {
+                    Step::BuildRustcFails(i) | Step::BuildRustcDies(i) | Step::BuildRustcKilledAlone(i, _) | Step::BuildRustcFailsLate(i) => {
                         if !case.component || cl.2.is_empty() {
                             continue;
                         }
                         let name = &cl.2[*i as usize % cl.2.len()];
-                        if matches!(step, Step::BuildRustcFails(_)) {
-                            envs.push(("FAKE_RUSTC_FAIL_ON".into(), format!("{}.rs", name)));
-                            st.rustc_failures += 1;
-                        } else {
-                            envs.push(("FAKE_RUSTC_DIE_ON".into(), format!("{}.rs", name)));
-                            st.rustc_deaths += 1;
+                        match step {
+                            Step::BuildRustcFails(_) => {
+                                envs.push(("FAKE_RUSTC_FAIL_ON".into(), format!("{}.rs", name)));
+                                st.rustc_failures += 1;
+                            }
+                            Step::BuildRustcFailsLate(_) => {
+                                envs.push(("FAKE_RUSTC_FAIL_LATE_ON".into(), format!("{}.rs", name)));
+                                st.rustc_failures += 1;
+                            }
+                            Step::BuildRustcKilledAlone(_, sg) => {
+                                const SIGS: [i32; 4] = [9, 11, 15, 6];
+                                envs.push(("FAKE_RUSTC_SELFKILL_ON".into(), format!("{}.rs", name)));
+                                envs.push(("FAKE_RUSTC_SIGNAL".into(), SIGS[*sg as usize % SIGS.len()].to_string()));
+                                st.rustc_signalled += 1;
+                            }
+                            _ => {
+                                envs.push(("FAKE_RUSTC_DIE_ON".into(), format!("{}.rs", name)));
+                                st.rustc_deaths += 1;
+                            }
                         }
                         expect_ok = false;
                     }
@@ -260,7 +285,7 @@ pub fn run_case(case: &Case, st: &mut Stats) -> Result<Option<()>, String> {
                     if expect_ok {
                         return Err(format!("step {}: build of version {} fails (exit {:?}) although a clean build of it succeeds: {}", si, cur, r.out.code, r.out.stderr_str().lines().next().unwrap_or("")));
                     }
-                    if matches!(step, Step::BuildKilled(_)) {
+                    if matches!(step, Step::BuildKilled(_) | Step::BuildKilledTorn(_)) {
                         st.kills_effective += 1;
                     }
                     last_ok_unchanged = false;
@@ -323,12 +348,15 @@ fn gen_case(seed_prog: &crate::campaign::ProgramCase, tape: &[u16]) -> Case {
     let n = 3 + t.pick(6);
     let mut steps = vec![Step::Edit(0)];
     for _ in 0..n {
-        let s = match t.weighted(&[4, 4, 4, 1, 2]) {
+        let s = match t.weighted(&[4, 4, 4, 1, 2, 2, 1, 2]) {
             0 => Step::Edit(t.pick(nv)),
             1 => Step::Build,
             2 => Step::BuildKilled(t.pick(1 << 16) as u16),
+            7 => Step::BuildKilledTorn(t.pick(1 << 16) as u16),
             3 => Step::BuildRustcFails(t.pick(64) as u16),
-            _ => Step::BuildRustcDies(t.pick(64) as u16),
+            4 => Step::BuildRustcDies(t.pick(64) as u16),
+            5 => Step::BuildRustcKilledAlone(t.pick(64) as u16, t.pick(4) as u8),
+            _ => Step::BuildRustcFailsLate(t.pick(64) as u16),
         };
         steps.push(s);
     }
@@ -359,12 +387,30 @@ pub fn run_c12(tier: &str, seed: u64) -> campaign::CampaignResult {
         if c.versions.len() < 2 {
             continue;
         }
-        for k in 0..(if thorough { 120 } else { 40 }) {
+        for k in 0..(if thorough { 120 } else { 24 }) {
             enumerated.push(Case {
                 versions: c.versions.clone(),
                 component: c.component,
                 steps: vec![Step::Edit(0), Step::Build, Step::Edit(1), Step::BuildKilled(k as u16), Step::Edit(0), Step::Build, Step::Edit(1), Step::Build, Step::Build],
             });
+            if thorough || k % 2 == 0 {
+                enumerated.push(Case {
+                    versions: c.versions.clone(),
+                    component: c.component,
+                    steps: vec![Step::Edit(0), Step::Build, Step::Edit(1), Step::BuildKilledTorn(k as u16), Step::Build, Step::Edit(0), Step::Build],
+                });
+            }
+        }
+    }
+    // enumerated compiler faults: every component x every kind of rustc failure, on the edit-back-and-forth
+    // history and on the direct retry
+    for c in cases.iter().filter(|c| c.versions.len() >= 2).take(n_enum) {
+        for i in 0..(if thorough { 8u16 } else { 2u16 }) {
+            let faults = [Step::BuildRustcFails(i), Step::BuildRustcFailsLate(i), Step::BuildRustcDies(i), Step::BuildRustcKilledAlone(i, (i % 4) as u8)];
+            for f in faults {
+                enumerated.push(Case { versions: c.versions.clone(), component: true, steps: vec![Step::Edit(0), Step::Build, Step::Edit(1), f.clone(), Step::Build, Step::Build] });
+                enumerated.push(Case { versions: c.versions.clone(), component: true, steps: vec![Step::Edit(0), Step::Build, Step::Edit(1), f, Step::Edit(0), Step::Build, Step::Edit(1), Step::Build] });
+            }
         }
     }
     let n_random = cases.len();
@@ -381,18 +427,19 @@ pub fn run_c12(tier: &str, seed: u64) -> campaign::CampaignResult {
     let mut reported: std::collections::BTreeSet<String> = Default::default();
     for (i, (c, (res, st))) in cases.iter().zip(results.iter()).enumerate() {
         ev.evaluations += 1;
-        ev.count(if i < n_random { "random_histories" } else { "enumerated_killpoint_histories" }, 1);
+        ev.count(if i < n_random { "random_histories" } else { "enumerated_fault_histories" }, 1);
         ev.count("builds_successful", st.builds_ok as u64);
         ev.count("builds_killed", st.kills as u64);
         ev.count("builds_killed_midway", st.kills_effective as u64);
         ev.count("builds_rustc_failed", st.rustc_failures as u64);
         ev.count("builds_rustc_died", st.rustc_deaths as u64);
+        ev.count("builds_rustc_killed_by_signal_alone", st.rustc_signalled as u64);
         ev.count("noop_builds_checked", st.noop_builds as u64);
         ev.count("tree_comparisons", st.stale_checks as u64);
         ev.count(if c.component { "component_mode" } else { "module_mode" }, 1);
         match res {
             Ok(Some(())) => {
-                if st.kills_effective + st.rustc_failures + st.rustc_deaths > 0 && st.stale_checks > 0 {
+                if st.kills_effective + st.rustc_failures + st.rustc_deaths + st.rustc_signalled > 0 && st.stale_checks > 0 {
                     ev.nontrivial.insert(util::hash64(&[serde_json::to_string(c).unwrap().as_bytes()]));
                     ev.sample(json!({"steps": c.steps, "component": c.component, "n_versions": c.versions.len(), "version_0": c.versions[0]}), 3);
                 }
@@ -439,7 +486,7 @@ pub fn run_c12(tier: &str, seed: u64) -> campaign::CampaignResult {
             }
         }
     }
-    ev.rule = "cases = 2-4 versions of one generated theory (edits keep rule names but change bodies, add/remove rules and declarations) and a history over Edit/Build/BuildKilled(k)/BuildRustcFails/BuildRustcDies ending in two successful builds, module or component mode (fake rustc, RAYON_NUM_THREADS=1 so that k is reproducible); plus enumerated kill points k = 1.. for the history build(a), edit b, build killed before its k-th mutation, edit a, build, edit b, build; non-trivial = history with a build that was really interrupted or whose rustc failed/died, followed by a compared successful build; distinct by hash of the case".into();
+    ev.rule = "cases = 2-4 versions of one generated theory (edits keep rule names but change bodies, add/remove rules and declarations) and a history over Edit/Build/BuildKilled(k)/BuildKilledTorn(k: the k-th call, if a write, delivers half its bytes)/BuildRustcFails/BuildRustcFailsLate/BuildRustcDies (takes the build with it)/BuildRustcKilledAlone (signal KILL/SEGV/TERM/ABRT, the build survives) ending in two successful builds, module or component mode (fake rustc, RAYON_NUM_THREADS=1 so that k is reproducible); plus enumerated kill points k = 1.. for the history build(a), edit b, build killed before its k-th mutation, edit a, build, edit b, build; plus every component x every kind of compiler failure (exit 1 early, exit 1 after a partial write, death taking the build along, death by signal alone) on build(a), edit b, faulty build, [edit a, build, edit b,] build; non-trivial = history with a build that was really interrupted or whose rustc failed/died, followed by a compared successful build; distinct by hash of the case".into();
     ev.assumptions = vec!["crashes are process death between two file-system calls of the compiler process (and inside rustc's output write); loss of page cache / power failure is not modelled".into()];
     ev.violations = violations as u64;
     ev.wall_s = start.elapsed().as_secs_f64();
